@@ -131,7 +131,7 @@ func Y(site string) {
 			s.Steered++
 			start := s.passed[r.Until]
 			for i := 0; i < r.MaxSpin; i++ {
-				runtime.Gosched()
+				runtime.VerifYield()
 				if Cur() != s {
 					return
 				}
@@ -148,7 +148,7 @@ func Y(site string) {
 	// waiting for another goroutine to finish) would spin forever on the one P.
 	// Real Go preempts such loops; here every 256th site visit lets the others run.
 	if s.Calls&255 == 0 {
-		runtime.Gosched()
+		runtime.VerifYield()
 	}
 	// A goroutine that busy-waits for something that needs simulated TIME to
 	// pass (a timer, a deadline) would livelock the discrete-event clock: time
@@ -206,6 +206,6 @@ func Y(site string) {
 	s.Yields++
 	k := 1 + int((v>>16)%3)
 	for i := 0; i < k; i++ {
-		runtime.Gosched()
+		runtime.VerifYield()
 	}
 }
